@@ -693,6 +693,10 @@ func sliceSafe(fn *ssa.Function, b *ssa.BasicBlock, x, low, high ssa.Value) stri
 		if w := indexSearchBound(v, x, b); w != "" {
 			return true, w
 		}
+		// the offset of an expression lexer that reads the same string
+		if lexerOffsetOf(v, x, 0) {
+			return true, "offset of the expression lexer built from the same string (text/scanner position of a reader over it: between 0 and its length)"
+		}
 		// len(y) after HasPrefix(x, y) for a non-constant y
 		if call, ok := v.(*ssa.Call); ok {
 			if bi, ok := call.Call.Value.(*ssa.Builtin); ok && bi.Name() == "len" {
@@ -817,6 +821,7 @@ func leLen(b *ssa.BasicBlock, v, x ssa.Value) bool {
 func indexSearchBound(v ssa.Value, x ssa.Value, b *ssa.BasicBlock) string {
 	lf := linOf(v, 0)
 	var search *ssa.Call
+	var searchPhi *ssa.Phi
 	var find func(v ssa.Value, d int)
 	find = func(v ssa.Value, d int) {
 		if d > 6 {
@@ -828,12 +833,19 @@ func indexSearchBound(v ssa.Value, x ssa.Value, b *ssa.BasicBlock) string {
 			if strings.HasPrefix(name, "strings.Index") || strings.HasPrefix(name, "strings.LastIndex") || strings.HasPrefix(name, "bytes.Index") {
 				search = t
 			}
+		case *ssa.Phi:
+			if searchPhi == nil {
+				searchPhi = t
+			}
 		case *ssa.BinOp:
 			find(t.X, d+1)
 			find(t.Y, d+1)
 		}
 	}
 	find(v, 0)
+	if search == nil && searchPhi != nil {
+		return parallelSearchBound(lf, searchPhi, x, b)
+	}
 	if search == nil {
 		return ""
 	}
@@ -861,9 +873,9 @@ func indexSearchBound(v ssa.Value, x ssa.Value, b *ssa.BasicBlock) string {
 	if !onlyZero(linWithout(rest, "1")) || rest["1"] < 0 || int64(rest["1"]) > subLen {
 		return ""
 	}
-	// guarded: the search result compared with -1 / 0 somewhere that dominates; no test is needed when at least 1 is added,
+	// guarded: the search result compared with -1 / 0 somewhere that dominates; no test is needed when exactly 1 is added,
 	// since a failed search returns -1
-	guarded := rest["1"] >= 1
+	guarded := rest["1"] == 1 // a failed search gives -1, so -1+1 = 0 is within bounds; with more added it need not be
 	for ifi := range controllingConds(b) {
 		if bo, ok := ifi.Cond.(*ssa.BinOp); ok && (bo.X == ssa.Value(search) || bo.Y == ssa.Value(search)) {
 			guarded = true
@@ -873,6 +885,56 @@ func indexSearchBound(v ssa.Value, x ssa.Value, b *ssa.BasicBlock) string {
 		return ""
 	}
 	return "position found by " + calleeFullName(&search.Call) + " in the same string (tested against -1), plus at most the length of what was searched"
+}
+
+// parallelSearchBound: the loop form `for i := strings.Index(s, sub); i >= 0; i = strings.Index(s, sub) { ... s = s[k:] }`:
+// the position and the string are joined by phis of the same block, and on every edge the position is the result of a
+// search in the string of that edge.
+func parallelSearchBound(lf linForm, ip *ssa.Phi, x ssa.Value, b *ssa.BasicBlock) string {
+	xp, ok := x.(*ssa.Phi)
+	if !ok || xp.Block() != ip.Block() || len(xp.Edges) != len(ip.Edges) {
+		return ""
+	}
+	subLen := int64(-1)
+	for i, e := range ip.Edges {
+		call, ok := e.(*ssa.Call)
+		if !ok {
+			return ""
+		}
+		name := calleeFullName(&call.Call)
+		if !(strings.HasPrefix(name, "strings.Index") || strings.HasPrefix(name, "strings.LastIndex") || strings.HasPrefix(name, "bytes.Index")) {
+			return ""
+		}
+		// the string searched is the one this edge hands to the string phi (the phi itself on a back edge that leaves
+		// the string alone)
+		if call.Call.Args[0] != xp.Edges[i] {
+			return ""
+		}
+		n := int64(1)
+		if len(call.Call.Args) > 1 {
+			if s, ok := constString(call.Call.Args[1]); ok {
+				n = int64(len(s))
+			}
+		}
+		if subLen >= 0 && n != subLen {
+			return ""
+		}
+		subLen = n
+	}
+	rest := linAdd(lf, linForm{symName(ip): 1}, -1)
+	if !onlyZero(linWithout(rest, "1")) || rest["1"] < 0 || int64(rest["1"]) > subLen {
+		return ""
+	}
+	guarded := rest["1"] == 1 // a failed search gives -1, so -1+1 = 0 is within bounds; with more added it need not be
+	for ifi := range controllingConds(b) {
+		if bo, ok := ifi.Cond.(*ssa.BinOp); ok && (bo.X == ssa.Value(ip) || bo.Y == ssa.Value(ip)) {
+			guarded = true
+		}
+	}
+	if !guarded {
+		return ""
+	}
+	return "position found by a search in the same string on every edge of the loop (tested against -1), plus at most the length of what was searched"
 }
 
 func lowBeforeHigh(low, high ssa.Value) bool {
@@ -1198,4 +1260,114 @@ func offsetIntoParam(g *ssa.Function) int {
 		}
 	}
 	return -1
+}
+
+// lexerOffsetOf: v is (*ExprLexer).Offset() of a lexer that NewExprLexer built from x, directly or as a result of an
+// in-module function all of whose returns are such an offset for the parameter that receives x. The fact relied on is
+// that text/scanner's Pos().Offset of a scanner initialised with strings.NewReader(s) lies in [0, len(s)]; that
+// NewExprLexer initialises the scanner that way and Offset returns that position is checked on the code.
+func lexerOffsetOf(v ssa.Value, x ssa.Value, depth int) bool {
+	if depth > 3 || idxProg == nil {
+		return false
+	}
+	newLexer := idxProg.Func("NewExprLexer")
+	offset := idxProg.Method("ExprLexer", "Offset")
+	if newLexer == nil || offset == nil || !lexerReadsItsArgument(newLexer, offset) {
+		return false
+	}
+	res := 0
+	if ex, ok := v.(*ssa.Extract); ok {
+		res = ex.Index
+		v = ex.Tuple
+	}
+	call, ok := v.(*ssa.Call)
+	if !ok {
+		return false
+	}
+	f := staticCallee(&call.Call)
+	if f == nil {
+		return false
+	}
+	if f == offset {
+		if len(call.Call.Args) == 0 {
+			return false
+		}
+		mk, ok := call.Call.Args[0].(*ssa.Call)
+		if !ok || staticCallee(&mk.Call) != newLexer || len(mk.Call.Args) == 0 {
+			return false
+		}
+		return sameContainer(mk.Call.Args[0], x)
+	}
+	if f.Blocks == nil || !inPkgName(f) {
+		return false
+	}
+	// a helper: which parameter receives x
+	for i, a := range call.Call.Args {
+		if !sameContainer(a, x) || i >= len(f.Params) {
+			continue
+		}
+		all, n := true, 0
+		for _, b := range f.Blocks {
+			ret, ok := b.Instrs[len(b.Instrs)-1].(*ssa.Return)
+			if !ok {
+				continue
+			}
+			n++
+			if res >= len(ret.Results) || !lexerOffsetOf(ret.Results[res], f.Params[i], depth+1) {
+				all = false
+			}
+		}
+		if all && n > 0 {
+			return true
+		}
+	}
+	return false
+}
+
+// lexerReadsItsArgument: NewExprLexer hands strings.NewReader(<its parameter>) to the scanner's Init, and Offset returns
+// the Offset field of the scanner's Pos().
+func lexerReadsItsArgument(newLexer, offset *ssa.Function) bool {
+	reads := false
+	eachInstr(newLexer, func(_ *ssa.BasicBlock, _ int, in ssa.Instruction) {
+		call, ok := in.(*ssa.Call)
+		if !ok || calleeFullName(&call.Call) != "(*text/scanner.Scanner).Init" || len(call.Call.Args) < 2 {
+			return
+		}
+		src := call.Call.Args[1]
+		if mi, ok := src.(*ssa.MakeInterface); ok {
+			src = mi.X
+		}
+		if rd, ok := src.(*ssa.Call); ok && calleeFullName(&rd.Call) == "strings.NewReader" && len(newLexer.Params) > 0 && rd.Call.Args[0] == ssa.Value(newLexer.Params[0]) {
+			reads = true
+		}
+	})
+	if !reads {
+		return false
+	}
+	returnsPos := false
+	for _, b := range offset.Blocks {
+		ret, ok := b.Instrs[len(b.Instrs)-1].(*ssa.Return)
+		if !ok || len(ret.Results) != 1 {
+			continue
+		}
+		f, base := fieldLoad(ret.Results[0])
+		if f == "" {
+			if fl, ok := ret.Results[0].(*ssa.Field); ok {
+				base = fl.X
+				f = "Position.Offset"
+				if fl.Field != 1 {
+					f = ""
+				}
+			}
+		}
+		if !strings.HasSuffix(f, "Position.Offset") {
+			return false
+		}
+		if pc, ok := base.(*ssa.Call); ok && calleeFullName(&pc.Call) == "(*text/scanner.Scanner).Pos" {
+			returnsPos = true
+		} else {
+			return false
+		}
+	}
+	return returnsPos
 }
